@@ -763,6 +763,17 @@ impl Transaction {
 
         let (value_balance, shielded_spends, shielded_outputs) =
             sapling_serialization::read_v4_components(&mut reader, version.has_sapling())?;
+        // A v4 transaction without Sapling spends or outputs has no Sapling bundle to hold the
+        // balance; a non-zero value could not be written again (and is invalid by consensus).
+        if shielded_spends.is_empty()
+            && shielded_outputs.is_empty()
+            && value_balance != ZatBalance::zero()
+        {
+            return Err(io::Error::new(
+                io::ErrorKind::InvalidData,
+                "valueBalanceSapling must be zero without Sapling spends or outputs",
+            ));
+        }
 
         let sprout_bundle = if version.has_sprout() {
             let joinsplits = Vector::read(&mut reader, |r| {
